@@ -527,6 +527,9 @@ class _Rec:
     def __init__(self, obj, root, path, ctor, fidx, rwfam=None):
         self.obj, self.root, self.path, self.ctor, self.fidx, self.rwfam = obj, root, path, ctor, fidx, rwfam
         self.after_reject = False       # was (an alias of) this object the argument of a rejected call?
+        # does this object, or an object it was derived from, wrap an ndarray SUBCLASS instance (its views and
+        # conversions follow numpy's subclass rules, e.g. np.asarray(masked_0d) may be read-only)?
+        self.exo = type(_raw(obj)) is not np.ndarray
 
 
 class History:
@@ -1032,6 +1035,7 @@ class History:
             self.classes.add("derive_gave_scalar")
             return
         self.arrs.append(_Rec(h, rec.root, rec.path + "~" + kind, rec.ctor, rec.fidx, rec.rwfam))
+        self.arrs[-1].exo = self.arrs[-1].exo or rec.exo
         self.arrs[-1].after_reject = rec.after_reject
         self.classes.add(("derive_aa:" if isinstance(rec.obj, ift.AnyArray) else "derive_nd:") + kind)
 
@@ -1285,7 +1289,8 @@ class History:
             wkind = "setall"        # empty slice: nothing to address
         contig = bool(raw.flags.c_contiguous)
         # twin: would numpy accept this write on a plain writable copy, and would it change anything?
-        exotic = type(raw) is not np.ndarray       # ndarray subclass: numpy's subclass code decides how to refuse
+        # ndarray subclass (or derived from one): numpy's subclass code decides how to refuse
+        exotic = type(raw) is not np.ndarray or rec.exo
         refusal = Exception if exotic else REFUSAL
         twin_raw = np.array(np.asarray(raw), copy=True)
         twin = ift.AnyArray(twin_raw) if isaa else twin_raw
